@@ -100,8 +100,8 @@ theorem tallyOne_custom {s s' : State} {stk : Staking} {id : Nat} (h2 : settleSh
 
 theorem dropInactive_custom {s s' : State} {id : Nat} (h1 : inactiveSettleShapeOk = true) (ha : All s)
     (hs' : dropInactive id s = .ok s') : s'.custom = s.custom := by
-  unfold dropInactive at hs'
-  simp only [refundRun_eq, burnRun_eq] at hs'
+  rw [dropInactive_eq] at hs'
+  unfold dropInactiveSpec at hs'
   split at hs'
   · cases hs'
   · simp only [h1, if_true] at hs'
@@ -153,13 +153,34 @@ theorem runAll_keepsQ {f : Nat → State → Except Err State} {P : State → Pr
         (fun hm => hni (List.mem_cons_of_mem _ hm)) (q1 id' hne hq')
     · cases h
 
+/-- the ids a walk over the due entries visits BEFORE `pid` belong to entries that precede `pid`'s entry in queue order
+(time, then id) -/
+theorem dueIds_prefix_lt {q : Q} (hs : q.Pairwise qlt) {now pid : Nat} {pre post : List Nat}
+    (h : dueIds q now = pre ++ pid :: post) : ∀ id ∈ pre, ∃ t tp, (t, id) ∈ q ∧ (tp, pid) ∈ q ∧ qlt (t, id) (tp, pid) := by
+  unfold dueIds at h
+  have hs' : (q.filter (fun x => decide (x.1 ≤ now))).Pairwise qlt := List.Pairwise.filter _ hs
+  have hm : ∀ x, x ∈ q.filter (fun x => decide (x.1 ≤ now)) → x ∈ q := fun x hx => (List.mem_filter.mp hx).1
+  generalize q.filter (fun x => decide (x.1 ≤ now)) = l at h hs' hm
+  obtain ⟨l1, l2, hl, h1, h2⟩ := List.map_eq_append_iff.mp h
+  obtain ⟨x, l3, hl2, hx, _⟩ := List.map_eq_cons_iff.mp h2
+  subst hl hl2
+  intro id hid
+  rw [← h1] at hid
+  obtain ⟨y, hy, hyid⟩ := List.mem_map.mp hid
+  have hlt : qlt y x := (List.pairwise_append.mp hs').2.2 y hy x List.mem_cons_self
+  refine ⟨y.1, x.1, ?_, ?_, ?_⟩
+  · rw [← hyid]; exact hm y (List.mem_append_left _ hy)
+  · rw [← hx]; exact hm x (List.mem_append_right _ List.mem_cons_self)
+  · rw [← hyid, ← hx]; exact hlt
+
 /-- **the tally of a proposal sees the custom parameters of the block start** when no OTHER proposal whose voting period
 has ended by this block carries a `MsgUpdateCustomParams`: the `sm` of `endBlock_voting` with `sm.custom = s.custom` -/
 theorem endBlock_voting_custom {s s' : State} {stk : Staking} (h1 : inactiveSettleShapeOk = true) (h2 : settleShapeOk = true)
     (h3 : execInCacheCtx = true) (h4 : tallyRemovesVotes = true) (he : execErrVisible = true) (ha : All s)
     (h : endBlock stk s = .ok s') {pid : Nat} {p : Proposal} (hp : findProp s.props pid = some p) (hst : p.status = .voting)
     (hle : p.votingEnd ≤ s.time)
-    (hno : ∀ id q, id ≠ pid → findProp s.props id = some q → q.status = .voting → q.votingEnd ≤ s.time → noSetCustom q.msgs = true) :
+    (hno : ∀ id q, findProp s.props id = some q → q.status = .voting → q.votingEnd ≤ s.time →
+      qlt (q.votingEnd, id) (p.votingEnd, pid) → noSetCustom q.msgs = true) :
     ∃ sm q n passes burn, All sm ∧ sm.params = s.params ∧ sm.time = s.time ∧ sm.custom = s.custom ∧
         findProp sm.props pid = some p ∧ tallyNums (votesOf sm.votes pid) stk = some n ∧ tally sm p n = .ok (passes, burn) ∧
         findProp s'.props pid = some q ∧ Ended sm p q passes := by
@@ -229,8 +250,12 @@ theorem endBlock_voting_custom {s s' : State} {stk : Staking} (h1 : inactiveSett
       refine ⟨⟨t, ht⟩, fun q hq => ?_⟩
       obtain ⟨q', hq', hs', hend⟩ := a1.1.both.q.actSound t id ht
       rw [hq] at hq'; cases hq'
-      have hne : id ≠ pid := fun e => hpre (e ▸ hid)
-      exact hno id q hne (back id t q ht hq) hs' (by rw [a1.2.1] at hlt; omega)
+      obtain ⟨t2, tp, ht2, htp, hlt2⟩ := dueIds_prefix_lt a1.1.both.q.actSorted eids id hid
+      obtain ⟨q2, hq2, _, hend2⟩ := a1.1.both.q.actSound t2 id ht2
+      rw [hq] at hq2; cases hq2
+      obtain ⟨p2, hp2, _, hendp⟩ := a1.1.both.q.actSound tp pid htp
+      rw [hp1] at hp2; cases hp2
+      exact hno id q (back id t q ht hq) hs' (by rw [a1.2.1] at hlt; omega) (by rw [hend2, hendp]; exact hlt2)
     have stepA : ∀ id x x', (All x ∧ x.custom = s1.custom) →
         ((∃ t, (t, id) ∈ x.active) ∧ ∀ q, findProp x.props id = some q → noSetCustom q.msgs = true) →
         tallyOne stk id x = .ok x' →
